@@ -130,6 +130,9 @@ func (w *World) replayNative(overlayPath string, doc *ReplayDoc, docPath string,
 		if i := strings.LastIndex(msg, "#"); i >= 0 {
 			msg = msg[:i]
 		}
+		if i := strings.Index(msg, " (candidate writes:"); i >= 0 {
+			msg = msg[:i]
+		}
 		ok = strings.Contains(s, "ASSERT FAILED: "+msg)
 	}
 	return s, ok
